@@ -222,100 +222,63 @@ theorem inv_push {c : Ctx} {p : List Nat} (h : Inv c p) (l : Nat) : Inv (c.push 
     · exact Or.inr (h.2 l' hl)
 
 mutual
-/-- EARLY ERRORS: outside the deviation region `continue_non_iteration_label`, otto's parse-time checks accept a
-    statement tree exactly when ES5 §12.7–12.9, §12.12, §12.14 make it legal — for every tree and every context that
-    can arise (invariant `Inv`). -/
-theorem early_eq : ∀ (s : S) (c : Ctx) (p : List Nat), Inv c p → devCont c p s = false → accepts c p s = earlyOK c p s
-  | .expr, _, _, _, _ => rfl
-  | .brk none, _, _, _, _ => rfl
-  | .brk (some _), _, _, _, _ => rfl
-  | .cont none, _, _, _, _ => rfl
-  | .cont (some l), c, p, hi, hd => by
-    simp only [devCont] at hd
+/-- EARLY ERRORS: otto's parse-time checks accept a statement tree exactly when ES5 §12.7–12.9, §12.12, §12.14 make it
+    legal — for every tree and every context that can arise (invariant `Inv`).  No deviation region is left. -/
+theorem early_eq : ∀ (s : S) (c : Ctx) (p : List Nat), Inv c p → accepts c p s = earlyOK c p s
+  | .expr, _, _, _ => rfl
+  | .brk none, _, _, _ => rfl
+  | .brk (some _), _, _, _ => rfl
+  | .cont none, _, _, _ => rfl
+  | .cont (some l), c, p, hi => by
     simp only [accepts, earlyOK]
     cases hil : c.iterLabels.contains l
-    · simp [hil] at hd
-      cases h1 : c.labels.contains l <;> cases h2 : c.inIter <;> simp_all
+    · simp
     · have := hi.1 l (by simpa using hil)
-      have h1 : c.labels.contains l = true := by simpa using this.1
       simp [this.1, this.2]
-  | .ret, _, _, _, _ => rfl
-  | .block b, c, p, hi, hd => by
-    simp only [devCont] at hd
-    simp only [accepts, earlyOK]
-    exact earlyL_eq b c (inv_drop hi) hd
-  | .if1 t, c, p, hi, hd => by
-    simp only [devCont] at hd
-    simp only [accepts, earlyOK]
-    exact early_eq t c [] (inv_drop hi) hd
-  | .if2 t e, c, p, hi, hd => by
-    simp only [devCont, Bool.or_eq_false_iff] at hd
-    simp only [accepts, earlyOK]
-    rw [early_eq t c [] (inv_drop hi) hd.1, early_eq e c [] (inv_drop hi) hd.2]
-  | .loop k body, c, p, hi, hd => by
-    simp only [devCont] at hd
-    simp only [accepts, earlyOK]
-    exact early_eq body _ [] (inv_loop hi) hd
-  | .switch cl, c, p, hi, hd => by
-    simp only [devCont] at hd
-    simp only [accepts, earlyOK]
-    exact earlyL_eq cl _ (inv_switch hi) hd
-  | .try_ b none none, c, p, hi, hd => by
+  | .ret, _, _, _ => rfl
+  | .block b, c, p, hi => by
+    simp only [accepts, earlyOK]; exact earlyL_eq b c (inv_drop hi)
+  | .if1 t, c, p, hi => by
+    simp only [accepts, earlyOK]; exact early_eq t c [] (inv_drop hi)
+  | .if2 t e, c, p, hi => by
+    simp only [accepts, earlyOK]; rw [early_eq t c [] (inv_drop hi), early_eq e c [] (inv_drop hi)]
+  | .loop k body, c, p, hi => by
+    simp only [accepts, earlyOK]; exact early_eq body _ [] (inv_loop hi)
+  | .switch cl, c, p, hi => by
+    simp only [accepts, earlyOK]; exact earlyL_eq cl _ (inv_switch hi)
+  | .try_ b none none, c, p, hi => by
     simp only [accepts, earlyOK]; simp
-  | .try_ b none (some y), c, p, hi, hd => by
-    have h1 : devContL c b = false := by cases h : devContL c b <;> simp_all [devCont]
-    have h2 : devContL c y = false := by cases h : devContL c y <;> simp_all [devCont]
+  | .try_ b none (some y), c, p, hi => by
+    simp only [accepts, earlyOK]; rw [earlyL_eq b c (inv_drop hi), earlyL_eq y c (inv_drop hi)]
+  | .try_ b (some x) none, c, p, hi => by
+    simp only [accepts, earlyOK]; rw [earlyL_eq b c (inv_drop hi), earlyL_eq x c (inv_drop hi)]
+  | .try_ b (some x) (some y), c, p, hi => by
     simp only [accepts, earlyOK]
-    rw [earlyL_eq b c (inv_drop hi) h1, earlyL_eq y c (inv_drop hi) h2]
-  | .try_ b (some x) none, c, p, hi, hd => by
-    have h1 : devContL c b = false := by cases h : devContL c b <;> simp_all [devCont]
-    have h2 : devContL c x = false := by cases h : devContL c x <;> simp_all [devCont]
-    simp only [accepts, earlyOK]
-    rw [earlyL_eq b c (inv_drop hi) h1, earlyL_eq x c (inv_drop hi) h2]
-  | .try_ b (some x) (some y), c, p, hi, hd => by
-    have h1 : devContL c b = false := by cases h : devContL c b <;> simp_all [devCont]
-    have h2 : devContL c x = false := by cases h : devContL c x <;> simp_all [devCont]
-    have h3 : devContL c y = false := by cases h : devContL c y <;> simp_all [devCont]
-    simp only [accepts, earlyOK]
-    rw [earlyL_eq b c (inv_drop hi) h1, earlyL_eq x c (inv_drop hi) h2, earlyL_eq y c (inv_drop hi) h3]
-  | .with_ b, c, p, hi, hd => by
-    simp only [devCont] at hd
-    simp only [accepts, earlyOK]
-    exact early_eq b c [] (inv_drop hi) hd
-  | .label l s, c, p, hi, hd => by
-    simp only [devCont] at hd
-    simp only [accepts, earlyOK]
-    rw [early_eq s _ _ (inv_push hi l) hd]
-  | .fn body, c, p, hi, hd => by
-    simp only [devCont] at hd
-    simp only [accepts, earlyOK]
-    exact earlyL_eq body _ (inv_fn c) hd
-theorem earlyL_eq : ∀ (sl : SL) (c : Ctx), Inv c [] → devContL c sl = false → acceptsL c sl = earlyOKL c sl
-  | .nil, _, _, _ => rfl
-  | .cons s r, c, hi, hd => by
-    simp only [devContL, Bool.or_eq_false_iff] at hd
-    simp only [acceptsL, earlyOKL]
-    rw [early_eq s c [] hi hd.1, earlyL_eq r c hi hd.2]
+    rw [earlyL_eq b c (inv_drop hi), earlyL_eq x c (inv_drop hi), earlyL_eq y c (inv_drop hi)]
+  | .with_ b, c, p, hi => by
+    simp only [accepts, earlyOK]; exact early_eq b c [] (inv_drop hi)
+  | .label l s, c, p, hi => by
+    simp only [accepts, earlyOK]; rw [early_eq s _ _ (inv_push hi l)]
+  | .fn body, c, p, hi => by
+    simp only [accepts, earlyOK]; exact earlyL_eq body _ (inv_fn c)
+theorem earlyL_eq : ∀ (sl : SL) (c : Ctx), Inv c [] → acceptsL c sl = earlyOKL c sl
+  | .nil, _, _ => rfl
+  | .cons s r, c, hi => by
+    simp only [acceptsL, earlyOKL]; rw [early_eq s c [] hi, earlyL_eq r c hi]
 end
 
-/-- the statement asked for: whatever the parser accepts (outside the region) satisfies the ES5 early-error rules,
-    for a whole program (empty initial context) -/
-theorem early_errors (prog : SL) (hd : devContL {} prog = false) (h : acceptsL {} prog = true) : earlyOKL {} prog = true := by
-  rw [← earlyL_eq prog {} ⟨by simp, by simp⟩ hd]; exact h
+/-- whatever the parser accepts satisfies the ES5 early-error rules, for a whole program (empty initial context) -/
+theorem early_errors (prog : SL) (h : acceptsL {} prog = true) : earlyOKL {} prog = true := by
+  rw [← earlyL_eq prog {} ⟨by simp, by simp⟩]; exact h
 
 /-- and conversely: nothing legal is rejected by these checks -/
-theorem early_complete (prog : SL) (hd : devContL {} prog = false) (h : earlyOKL {} prog = true) : acceptsL {} prog = true := by
-  rw [earlyL_eq prog {} ⟨by simp, by simp⟩ hd]; exact h
+theorem early_complete (prog : SL) (h : earlyOKL {} prog = true) : acceptsL {} prog = true := by
+  rw [earlyL_eq prog {} ⟨by simp, by simp⟩]; exact h
 
-/-- witness of the region: `a: { while (1) { continue a; } }` -/
-def wContLabel : SL := .cons (.label 0 (.block (.cons (.loop .while_ (.block (.cons (.cont (some 0)) .nil))) .nil))) .nil
-example : devContL {} wContLabel = true ∧ acceptsL {} wContLabel = true ∧ earlyOKL {} wContLabel = false := by decide
-/-- non-vacuity: `a: while (1) { switch (1) { case 1: continue a; } }` is legal and outside the region; the seeded
-    `a: switch (1) { case 1: continue a; }` is illegal for both -/
-example : let p : SL := .cons (.label 0 (.loop .while_ (.block (.cons (.switch (.cons (.cont (some 0)) .nil)) .nil)))) .nil
-    devContL {} p = false ∧ acceptsL {} p = true ∧ earlyOKL {} p = true := by decide
-example : let p : SL := .cons (.label 0 (.switch (.cons (.cont (some 0)) .nil))) .nil
-    devContL {} p = false ∧ acceptsL {} p = false ∧ earlyOKL {} p = false := by decide
+/-- the former deviation `a: { while (1) { continue a; } }` is rejected; label sets: `a: b: for(;;) { continue a; }` is legal -/
+example : acceptsL {} (.cons (.label 0 (.block (.cons (.loop .while_ (.block (.cons (.cont (some 0)) .nil))) .nil))) .nil) = false := by decide
+example : acceptsL {} (.cons (.label 0 (.label 1 (.loop .for_ (.block (.cons (.cont (some 0)) (.cons (.cont (some 1)) .nil)))))) .nil) = true := by decide
+example : acceptsL {} (.cons (.label 0 (.switch (.cons (.cont (some 0)) .nil))) .nil) = false := by decide
 
 /-! ### reserved words -/
 
